@@ -950,6 +950,10 @@ func (ctx *Context) evaluate() {
 		case typeDiceCocBonus, typeDiceCocPenalty:
 			t := stackPop()
 			diceNum := t.MustReadInt()
+			if diceNum < 0 {
+				ctx.Error = errors.New("奖励骰/惩罚骰个数不能为负数")
+				return
+			}
 
 			if numOpCountAdd(diceNum) {
 				return
